@@ -207,7 +207,27 @@ class Unit:
         if self.fp_restrict:
             # all restrictions in ONE invocation: call-site labels are renumbered after each rewrite
             cmd = ["goto-instrument"]
+            sites = {}
+            wild = {k[:-len(".function_pointer_call.*")]: v for k, v in self.fp_restrict.items() if k.endswith(".function_pointer_call.*")}
+            if wild:
+                # "func.function_pointer_call.*": EVERY indirect call site of func (counted in the current goto program, so that a
+                # refactoring of /repo that adds or removes a site neither breaks the restriction nor shifts it onto the wrong site)
+                rc, so, se, *_ = run(["goto-instrument", "--show-goto-functions", out], 300)
+                cur = None
+                count = {}
+                for line in so.splitlines():
+                    m = re.match(r"^(\S+) /\* (\S+) \*/$", line)
+                    if m:
+                        cur = m.group(2)
+                    elif cur in wild and re.search(r"\bCALL (?:.* := )?\*", line):
+                        count[cur] = count.get(cur, 0) + 1
+                for fn, targets in wild.items():
+                    for i in range(count.get(fn, 0)):
+                        sites["%s.function_pointer_call.%d" % (fn, i + 1)] = targets
             for site, targets in self.fp_restrict.items():
+                if not site.endswith(".function_pointer_call.*"):
+                    sites[site] = targets
+            for site, targets in sites.items():
                 cmd += ["--restrict-function-pointer", "%s/%s" % (site, ",".join(targets))]
             rc, so, se, *_ = run(cmd + [out, out], 300)
             if rc != 0:
